@@ -56,6 +56,81 @@ def checkRespectsKind (excl : DRow → Bool) (ds : List DRow) (m : List (List Bo
   ds.all (fun a => !physical a || excl a ||
     ds.all (fun b => !cell m a.id b.id || (a.kind == b.kind && a.signed == b.signed && a.bits == b.bits)))
 
+/-! ### the table checks read as quantified statements (lifting lemmas) -/
+
+/-- every key's resolved id is a row of the engine's table of distinct resolved types (ids are positions
+in that table by construction of the translator; a key that does not resolve fails this too) -/
+def keysClosed (ks : List KRow) (ds : List DRow) : Bool :=
+  ks.all (fun k => match k.resolved with
+    | some i => ds.any (fun r => r.id == i)
+    | none => false)
+
+theorem keysClosed_resolve (ks : List KRow) (ds : List DRow) (h : keysClosed ks ds = true) :
+    keysResolve ks = true := by
+  simp only [keysClosed, keysResolve, List.all_eq_true] at *
+  intro k hk
+  have := h k hk
+  cases hr : k.resolved with
+  | none => simp [hr] at this
+  | some i => simp
+
+/-- `E.dtype(E.dtype(k)) == E.dtype(k)`, hashes equal — for every key of the table -/
+theorem resolve_fixed_forall (ks : List KRow) (ds : List DRow)
+    (hc : keysClosed ks ds = true) (hi : resolveIdempotent ds = true) :
+    ∀ k ∈ ks, ∃ r ∈ ds, k.resolved = some r.id ∧ r.re = some r.id ∧ r.hashStable = true := by
+  simp only [keysClosed, resolveIdempotent, List.all_eq_true] at *
+  intro k hk
+  have h1 := hc k hk
+  cases hr : k.resolved with
+  | none => simp [hr] at h1
+  | some i =>
+    simp only [hr, List.any_eq_true, beq_iff_eq] at h1
+    obtain ⟨r, hr1, hr2⟩ := h1
+    have h2 := hi r hr1
+    simp only [Bool.and_eq_true, beq_iff_eq] at h2
+    exact ⟨r, hr1, by rw [hr2], h2.1, h2.2⟩
+
+/-- `k1 ~ k2 ⇒ E.dtype(k1) == E.dtype(k2)` and equal hashes — for every pair of keys -/
+theorem groups_forall (ks : List KRow) (h : groupsCoherent ks = true) :
+    ∀ a ∈ ks, ∀ b ∈ ks, a.group = b.group → a.resolved = b.resolved ∧ a.hash = b.hash := by
+  simp only [groupsCoherent, List.all_eq_true] at h
+  intro a ha b hb hg
+  have := h a ha b hb
+  simp only [Bool.or_eq_true, bne_iff_ne, ne_eq, Bool.and_eq_true, beq_iff_eq] at this
+  rcases this with h1 | h1
+  · exact absurd hg h1
+  · exact h1
+
+/-- `t1.check(t2) ⇒ (kind, signedness, width) equal` for physical `t1` — for every ordered pair of rows -/
+theorem respectsKind_forall (excl : DRow → Bool) (ds : List DRow) (m : List (List Bool))
+    (h : checkRespectsKind excl ds m = true) :
+    ∀ a ∈ ds, physical a = true → excl a = false → ∀ b ∈ ds, cell m a.id b.id = true →
+      a.kind = b.kind ∧ a.signed = b.signed ∧ a.bits = b.bits := by
+  simp only [checkRespectsKind, List.all_eq_true] at h
+  intro a ha hp he b hb hc
+  have h1 := h a ha
+  simp only [hp, he, Bool.not_true, Bool.false_or, List.all_eq_true] at h1
+  have h2 := h1 b hb
+  simp only [hc, Bool.not_true, Bool.false_or, Bool.and_eq_true, beq_iff_eq] at h2
+  exact ⟨h2.1.1, h2.1.2, h2.2⟩
+
+/-- `t.check(t)` — for every row outside the excluded ones -/
+theorem reflexive_forall (excl : DRow → Bool) (ds : List DRow) (m : List (List Bool))
+    (h : checkReflexive excl ds m = true) :
+    ∀ r ∈ ds, excl r = false → cell m r.id r.id = true := by
+  simp only [checkReflexive, List.all_eq_true] at h
+  intro r hr he
+  have := h r hr
+  simpa [he] using this
+
+/-- `E.dtype(str(t)) == t` — for every primitive row outside the excluded ones -/
+theorem printRoundtrip_forall (excl : DRow → Bool) (ds : List DRow) (h : printRoundtrip excl ds = true) :
+    ∀ r ∈ ds, r.primitive = true → excl r = false → r.restr = some r.id := by
+  simp only [printRoundtrip, List.all_eq_true] at h
+  intro r hr hp he
+  have := h r hr
+  simpa [hp, he] using this
+
 /-! ### intensional: the numeric families of `pandera.dtypes` for every bit width -/
 
 structure NumT where
